@@ -27,8 +27,8 @@ import traceback
 
 ROOT = os.path.dirname(os.path.dirname(os.path.abspath(__file__)))
 REPO = os.environ.get("MC_REPO", "/repo")
-EVIDENCE_DIR = os.path.join(ROOT, "evidence")
-REPLAY_DIR = os.path.join(ROOT, "replays")
+EVIDENCE_DIR = os.environ.get("MC_EVIDENCE_DIR", os.path.join(ROOT, "evidence"))
+REPLAY_DIR = os.environ.get("MC_REPLAY_DIR", os.path.join(ROOT, "replays"))
 KNOWN_FILE = os.path.join(ROOT, "known_findings.json")
 NPROC = int(os.environ.get("MC_NPROC", str(min(16, os.cpu_count() or 1))))
 STATE_CAP = 400_000  # per-shard cap on the number of state hashes shipped to the master
